@@ -65,7 +65,7 @@ func Main(prop string, gen func(*Ctx), replay func(*Ctx, json.RawMessage)) {
 	}
 	os.MkdirAll(*out, 0o755)
 	c := &Ctx{Prop: prop, Tier: *tier, Out: *out, Seed: *seed, Thorough: *tier == "thorough",
-		rng: *seed*0x9E3779B97F4A7C15 + 0x1234567, streams: map[string]*stream{}, stats: map[string]int{},
+		rng: mixSeed(*seed), streams: map[string]*stream{}, stats: map[string]int{},
 		nontrivial: map[[8]byte]struct{}{}, exhaustive: map[string]bool{}, Tables: *tables, Race: *race}
 	if *rp != "" {
 		raw, err := os.ReadFile(*rp)
@@ -85,6 +85,17 @@ func Main(prop string, gen func(*Ctx), replay func(*Ctx, json.RawMessage)) {
 		gen(c)
 	}
 	c.finish()
+}
+
+// mixSeed hashes the seed into the initial state, so that neighbouring seeds give
+// unrelated streams (a state of seed*gamma would make seed s+1 the stream of seed s shifted by one draw).
+func mixSeed(seed uint64) uint64 {
+	z := seed + 0x632BE59BD9B4E019
+	z = (z ^ (z >> 30)) * 0xBF58476D1CE4E5B9
+	z = (z ^ (z >> 27)) * 0x94D049BB133111EB
+	z ^= z >> 31
+	z = (z ^ (z >> 33)) * 0xFF51AFD7ED558CCD
+	return z ^ (z >> 29)
 }
 
 // ---- PRNG: splitmix64, every random choice of a run derives from --seed ----
